@@ -46,7 +46,10 @@ FOLLOW_UPS = [("job0", "ram_needed", (80, "MB")), ("srv0", "power", (350, "W")),
 KNOWN_D10 = {("base_ram_consumption above capacity", "reassign=same-object", "graph-not-restored"),
              ("base_compute_consumption above capacity", "reassign=same-object", "graph-not-restored"),
              ("job deletes more than stored", "reassign=same-object", "graph-not-restored"),
-             ("fixed_nb_of_instances too small (on-premise)", "reassign=fresh-equal-value", "later-edit-raises")}
+             ("fixed_nb_of_instances too small (on-premise)", "reassign=fresh-equal-value", "later-edit-raises"),
+             # same root cause, seen by the thorough tier (more follow-up edits): replayed natively on the unchanged tree
+             ("storage fixed_nb_of_instances too small", "reassign=fresh-equal-value", "later-edit-raises"),
+             ("job deletes more than stored", "reassign=fresh-equal-value", "later-edit-raises")}
 
 
 def spec_for(fail_name):
